@@ -1,6 +1,7 @@
 package turn
 
 import (
+	"fmt"
 	"sort"
 
 	"github.com/simimpact/srsim/pkg/engine/event"
@@ -15,14 +16,18 @@ import (
 //     turn (so index 1 instead of 0 when 0 gauge/AV)
 //  4. Emit GaugeChangeEvent
 func (mgr *manager) SetGauge(data info.ModifyAttribute) error {
-	previousGauge := mgr.target(data.Target).gauge
+	t := mgr.target(data.Target)
+	if t == nil {
+		return fmt.Errorf("cannot set gauge of a target that is not in the turn order: %v", data.Target)
+	}
+	previousGauge := t.gauge
 
 	// if there's no change to Gauge, exit early
 	if previousGauge == int64(data.Amount) {
 		return nil
 	}
 
-	mgr.target(data.Target).gauge = int64(data.Amount)
+	t.gauge = int64(data.Amount)
 
 	// find target index in mgr.orderHandler.turnOrder
 	targetIndex, err := mgr.orderHandler.FindTargetIndex(data.Target)
@@ -57,13 +62,21 @@ func (mgr *manager) SetGauge(data info.ModifyAttribute) error {
 }
 
 func (mgr *manager) ModifyGaugeNormalized(data info.ModifyAttribute) error {
-	data.Amount = float64(mgr.target(data.Target).gauge) + data.Amount*float64(BaseGauge)
+	t := mgr.target(data.Target)
+	if t == nil {
+		return fmt.Errorf("cannot modify gauge of a target that is not in the turn order: %v", data.Target)
+	}
+	data.Amount = float64(t.gauge) + data.Amount*float64(BaseGauge)
 	return mgr.SetGauge(data)
 }
 
 func (mgr *manager) ModifyGaugeAV(data info.ModifyAttribute) error {
+	t := mgr.target(data.Target)
+	if t == nil {
+		return fmt.Errorf("cannot modify gauge of a target that is not in the turn order: %v", data.Target)
+	}
 	added := mgr.attr.Stats(data.Target).SPD() * data.Amount // SPD * AV = gauge
-	data.Amount = float64(mgr.target(data.Target).gauge) + added
+	data.Amount = float64(t.gauge) + added
 
 	return mgr.SetGauge(data)
 }
